@@ -15,7 +15,6 @@ fn pool(len: u64, width: i64) -> &'static [char] {
     match (len, width) {
         (1, 1) => &['a', 'b', 'c', 'd', 'e', 'f'],
         (1, -1) => &['\u{1}', '\u{2}', '\u{3}', '\u{4}', '\u{5}', '\u{6}'],
-        (1, 0) => &['\0'],
         (2, 1) => &['é', 'ü', 'ß', 'ñ', 'Ж', 'λ'],
         (2, 0) => &['\u{301}', '\u{302}', '\u{303}', '\u{304}', '\u{306}', '\u{307}'],
         (2, -1) => &['\u{85}', '\u{86}', '\u{87}', '\u{88}', '\u{89}', '\u{8a}'],
@@ -41,8 +40,9 @@ fn c44(case: &Value) -> Value {
             let k = used.entry((len, width)).or_insert(0);
             let ch = *p.get(*k % p.len().max(1))?;
             *k += 1;
-            assert_eq!(ch.len_utf8() as u64, len);
-            assert_eq!(ch.width().map_or(-1, |w| w as i64), width, "width table mismatch for {ch:?}");
+            if ch.len_utf8() as u64 != len || ch.width().map_or(-1, |w| w as i64) != width {
+                return None; // this unicode-width version classifies the character differently: no native witness for the case
+            }
             chars.push(ch);
             s.push(ch);
         }
